@@ -79,6 +79,7 @@ type c17cfg struct {
 	slowOld  bool   // the deployed target answers its probes slower than the probe interval
 	during   string // "pause" | "stop": the measured command (on another service) is issued while this command is still draining s1
 	flapOld  string // "down" | "up": the deployed target's probe result changes its state at the very tick at which the command starts
+	twoOld   bool   // the service has two deployed targets (oa, ob); the in-flight requests are spread over them by the rotation
 }
 
 func (c c17cfg) String() string {
@@ -86,7 +87,7 @@ func (c c17cfg) String() string {
 	for _, s := range c.scripts {
 		n = append(n, s.name)
 	}
-	return fmt.Sprintf("cmd=%s pre=%s targets=[%s] inflight=[%s] timeouts=%d slowOld=%v", c.cmd, c.pre, strings.Join(n, ","), strings.Join(c.inflight, ","), c.to, c.slowOld)
+	return fmt.Sprintf("cmd=%s pre=%s targets=[%s] inflight=[%s] timeouts=%d slowOld=%v", c.cmd, c.pre, strings.Join(n, ","), strings.Join(c.inflight, ","), c.to, c.slowOld) + map[bool]string{true: " twoOld", false: ""}[c.twoOld]
 }
 
 var c17InflightDelay = map[string]time.Duration{
@@ -132,6 +133,12 @@ func c17Configs(tier string) []c17cfg {
 			if tier != "quick" || len(in) == 1 {
 				cfgs = append(cfgs, c17cfg{cmd: "rollout", pre: "rollout", scripts: []pscript{ok}, inflight: in, to: to})
 				cfgs = append(cfgs, c17cfg{cmd: "pause", pre: "rollout", scripts: []pscript{ok}, inflight: in, to: to})
+			}
+		}
+		// two deployed targets, each with a request in flight when the command drains them
+		for _, in := range [][]string{{"never", "never"}, {"after", "never"}, {"early", "never", "never"}} {
+			for _, cmd := range []string{"deploy", "pause", "stop"} {
+				cfgs = append(cfgs, c17cfg{cmd: cmd, pre: "active", scripts: []pscript{ok}, inflight: in, to: to, twoOld: true})
 			}
 		}
 		// commands that never wait
@@ -249,7 +256,12 @@ func c17Scenario(c c17cfg) *Scenario {
 		}
 		w.AddTarget("xa:80")
 		if c.pre != "absent" {
-			if r := w.Deploy(args("s1", []string{"oa:80"}, []string{host})); r.Err != nil {
+			olds := []string{"oa:80"}
+			if c.twoOld {
+				w.AddTarget("ob:80")
+				olds = append(olds, "ob:80")
+			}
+			if r := w.Deploy(args("s1", olds, []string{host})); r.Err != nil {
 				w.Note("setup: %v", r.Err)
 				return
 			}
@@ -478,6 +490,7 @@ func c17Scenario(c c17cfg) *Scenario {
 		switch {
 		case c.cmd == "remove":
 			silent["oa:80"] = true
+			silent["ob:80"] = true
 			if c.pre == "rollout" {
 				silent["ra:80"] = true
 			}
@@ -489,6 +502,7 @@ func c17Scenario(c c17cfg) *Scenario {
 			silent["xa:80"] = true
 		case c.cmd == "deploy" && replaced:
 			silent["oa:80"] = true
+			silent["ob:80"] = true
 		case c.cmd == "rollout" && replaced:
 			silent["ra:80"] = true
 		}
@@ -510,7 +524,7 @@ func c17Scenario(c c17cfg) *Scenario {
 			vs = append(vs, Violation{"C17", "probes-after-return " + class, fmt.Sprintf("targets %v received health probes after %s returned (%v) during the %v settle window", late, cmd.Name, cmd.Err, settleEnd-cmd.End)})
 		}
 		// the others keep their cadence: at least 3 probes in the 4-interval settle window
-		for _, n := range []string{"oa:80", "ra:80", "xa:80", "na:80", "nb:80"} {
+		for _, n := range []string{"oa:80", "ob:80", "ra:80", "xa:80", "na:80", "nb:80"} {
 			if silent[n] || w.Net.Target(n) == nil {
 				continue
 			}
@@ -525,7 +539,7 @@ func c17Scenario(c c17cfg) *Scenario {
 				}
 			}
 			stillThere := deployed
-			if c.cmd == "remove" && (n == "oa:80" || n == "ra:80") {
+			if c.cmd == "remove" && (n == "oa:80" || n == "ob:80" || n == "ra:80") {
 				stillThere = false
 			}
 			// one probe per interval, or per probe duration when probes are slower than the interval
